@@ -35,6 +35,7 @@ type c07Case struct {
 	Pat      int      `json:"pattern"`
 	Via      string   `json:"via"`                                 // raw | proposal
 	Then     *c07Case `json:"then,omitempty"`                      // a second derivation after which the first SA is inspected again
+	Arena    int      `json:"arena,omitempty"`                     // raw: 1 = Ni|Nr and g^ir are adjacent windows of one caller buffer (nonce first), 2 = secret first
 	LZ       bool     `json:"leading_zero_public_value,omitempty"` // twoparty: the responder's first draw is an exponent whose public value starts with a zero octet
 }
 
@@ -56,7 +57,7 @@ func init() {
 		ID:    "C07",
 		Level: "exploration",
 		Rule: "all 54 configurations (3 PRF × 3 integrity × 3 AES key sizes × 2 DH groups), each through raw algorithm descriptors and through a single-choice proposal, × nonce lengths {1,2,16,31,32,33,63,64,65,128,512} × shared-secret lengths {1,20,64,65,128,256,512} × 4 SPI pairs × content patterns (thorough: every nonce and secret length 1..512): the seven keys must equal the reference slices of prf+(prf(Ni|Nr,g^ir), Ni|Nr|SPIi|SPIr) and each of the seven ready-to-use objects must be keyed with its key (probed against the reference HMAC / CBC). " +
-			"Plus a two-party run per configuration: exponent from the scripted random source, public values exchanged, both SAs must hold identical keys, protect/unprotect each other's messages, and the responder's keys must equal the reference derivation from B^a mod p. distinct_nontrivial = distinct (configuration, input) derivations whose seven keys were all compared",
+			"Raw inputs are also handed over as adjacent windows of one caller buffer (nonce first / secret first; the buffer must come back unchanged), and one process runs NewIKESAKey for all 54 configurations one after the other in three orders. Plus a two-party run per configuration: exponent from the scripted random source, public values exchanged, both SAs must hold identical keys, protect/unprotect each other's messages, and the responder's keys must equal the reference derivation from B^a mod p. distinct_nontrivial = distinct (configuration, input) derivations whose seven keys were all compared",
 		Assumptions: []string{"HMAC key handling, prf+ iteration, slice order and SPI encoding are checked against an independent implementation; the compression functions and the AES block are shared primitives"},
 		Run:         runC07,
 		Replay: func(c *engine.Ctx, raw json.RawMessage) {
@@ -123,6 +124,33 @@ func runC07(c *engine.Ctx) {
 			}
 		}
 	}
+	// one process negotiates every suite, one after the other (a responder serving many peers): every related
+	// pair of configurations (equal in three transform ids, different in the fourth or only in the AES key size)
+	// follows each other in one of the three orders
+	if c.Mine() {
+		var seq []c07Case
+		for p := 0; p < 3; p++ {
+			for i := 0; i < 3; i++ {
+				for e := 0; e < 3; e++ {
+					for d := 0; d < 2; d++ {
+						seq = append(seq, c07Case{K: "derive", PRF: p, Integ: i, Encr: e, DH: d, Via: "proposal", NonceLen: 32, SecLen: 128, SPI: 1, Pat: 3})
+					}
+				}
+			}
+		}
+		for order := 0; order < 3; order++ {
+			for k := range seq {
+				cs := seq[k]
+				switch order {
+				case 1:
+					cs = seq[len(seq)-1-k]
+				case 2: // PRF fastest
+					cs = seq[(k%3)*18+k/3]
+				}
+				evalC07(c, cs)
+			}
+		}
+	}
 	nonceLens := []int{1, 2, 16, 31, 32, 33, 63, 64, 65, 128, 512}
 	secLens := []int{1, 20, 64, 65, 128, 256, 512}
 	for p := 0; p < 3; p++ {
@@ -144,6 +172,10 @@ func runC07(c *engine.Ctx) {
 											continue // through NewIKESAKey the secret is a DH output (fixed length)
 										}
 										evalC07(c, cs)
+										if via == "raw" && pat != 2 {
+											cs.Arena = 1 + (nl+sl+sp)%2
+											evalC07(c, cs)
+										}
 									}
 								}
 							}
@@ -250,9 +282,27 @@ func evalC07(c *engine.Ctx, cs c07Case) {
 			c.Violate("registry-missing-algorithm", fmt.Sprintf("%+v", cs), cs)
 			return
 		}
-		pi := engine.Catch(func() { err = sa.GenerateKeyForIKESA(nonce, secret, si, sr) })
+		nArg, sArg := nonce, secret
+		var arena, arena0 []byte
+		if cs.Arena != 0 {
+			// the caller keeps Ni|Nr and g^ir next to each other in one buffer (as they arrive in one datagram) and
+			// hands over windows of it: the first window's spare capacity reaches over the second
+			if cs.Arena == 1 {
+				arena = append(append(append([]byte(nil), nonce...), secret...), univ.Fill(24, 0xaa)...)
+				nArg, sArg = arena[:len(nonce)], arena[len(nonce):len(nonce)+len(secret)]
+			} else {
+				arena = append(append(append([]byte(nil), secret...), nonce...), univ.Fill(24, 0xaa)...)
+				sArg, nArg = arena[:len(secret)], arena[len(secret):len(secret)+len(nonce)]
+			}
+			arena0 = append([]byte(nil), arena...)
+		}
+		pi := engine.Catch(func() { err = sa.GenerateKeyForIKESA(nArg, sArg, si, sr) })
 		if pi != nil {
 			c.Violate(pi.Sig(), "GenerateKeyForIKESA panics: "+pi.Value, cs)
+			return
+		}
+		if arena != nil && !bytes.Equal(arena, arena0) {
+			c.Violate("caller-memory-modified", fmt.Sprintf("GenerateKeyForIKESA wrote into the caller's buffer that holds nonce and shared secret as adjacent windows (layout %d): %x… became %x…", cs.Arena, trunc(arena0, 40), trunc(arena, 40)), cs)
 			return
 		}
 	} else {
